@@ -52,8 +52,46 @@ def _cmp(op, l, r, like):
 ORD = {"Equal": "==", "Greater": ">", "Less": "<"}
 
 
+def _int_chain(n):
+    """`match x { 0 => A, 1..=9 => B, _ if g => C, _ => D }` on a simple integer scrutinee as an if-chain"""
+    arms = n["arms"]
+    e = n["e"]
+    if not _simple(e) or len(arms) < 2:
+        return None
+    last = arms[-1]
+    if last["pat"].get("k") != "PWild" or "guard" in last:
+        return None
+    conds = []
+    for a in arms[:-1]:
+        p = a["pat"]
+        if p.get("k") == "PLit" and p.get("lk") == "int" and "guard" not in a:
+            conds.append(_cmp("==", e, {"k": "Lit", "lk": "int", "v": p["v"]}, n))
+        elif p.get("k") == "PRange" and "guard" not in a and isinstance(p.get("lo"), dict) and isinstance(p.get("hi"), dict) and p["lo"].get("lk") == "int" and p["hi"].get("lk") == "int":
+            hi = _cmp("<=" if p.get("incl") else "<", e, {"k": "Lit", "lk": "int", "v": p["hi"]["v"]}, n)
+            if str(p["lo"]["v"]) == "0":
+                conds.append(hi)
+            else:
+                lo = _cmp("<=", {"k": "Lit", "lk": "int", "v": p["lo"]["v"]}, e, n)
+                conds.append({"k": "Binary", "op": "&&", "l": lo, "r": hi, "s": n.get("s", "")})
+        elif p.get("k") == "PWild" and "guard" in a:
+            conds.append(a["guard"])
+        else:
+            return None
+    if not any(a["pat"].get("k") == "PRange" or "guard" in a for a in arms[:-1]):
+        return None     # plain literal arms are handled below
+    el = last["body"]
+    for a, c in reversed(list(zip(arms[:-1], conds))):
+        el = _mk_if(c, a["body"], el, n)
+    return el
+
+
 def _match_to_if(n):
-    if n.get("k") != "Match" or n.get("src") != "Normal" or any("guard" in a for a in n["arms"]):
+    if n.get("k") != "Match" or n.get("src") != "Normal":
+        return None
+    r = _int_chain(n)
+    if r is not None:
+        return r
+    if any("guard" in a for a in n["arms"]):
         return None
     arms = n["arms"]
     if len(arms) < 2:
@@ -95,7 +133,8 @@ def _place_ok(e, mut_ids, depth=0):
         return _place_ok(e["e"], mut_ids, depth + 1)
     if k == "Index":
         i = e["i"]
-        ok_i = i.get("k") == "Lit" or (i.get("k") == "Path" and i.get("res") == "local" and i.get("id") not in mut_ids)
+        ok_i = i.get("k") == "Lit" or (i.get("k") == "Path" and i.get("res") == "local" and i.get("id") not in mut_ids) or \
+            (i.get("k") == "Field" and _simple(i) and ("field:" + str(i.get("name"))) not in mut_ids)
         return ok_i and _place_ok(e["e"], mut_ids, depth + 1)
     if k == "MethodCall" and e.get("name") in ("as_mut", "as_ref") and not e.get("args"):
         return _place_ok(e["recv"], mut_ids, depth + 1)
@@ -135,6 +174,8 @@ def normalize_body(body):
             mut_ids.add(x.get("id"))
         if x.get("k") in ("Assign", "AssignOp") and isinstance(x.get("l"), dict) and x["l"].get("k") == "Path":
             mut_ids.add(x["l"].get("id"))
+        if x.get("k") in ("Assign", "AssignOp") and isinstance(x.get("l"), dict) and x["l"].get("k") == "Field":
+            mut_ids.add("field:" + str(x["l"].get("name")))
     # reference aliases of places
     alias = {}
     for x in _walk(body):
@@ -151,6 +192,14 @@ def normalize_body(body):
                 if key in n:
                     r[key] = n[key]
             return r
+        # the alias used as a receiver (auto-deref): `r.seek(..)` is `PLACE.seek(..)`
+        if k == "MethodCall" and isinstance(n.get("recv"), dict) and n["recv"].get("k") == "Path" and n["recv"].get("res") == "local" and n["recv"].get("id") in alias:
+            r = copy.deepcopy(alias[n["recv"]["id"]])
+            for key in ("s", "t", "ta"):
+                if key in n["recv"]:
+                    r.setdefault(key, n["recv"][key])
+            n["recv"] = r
+            return n
         if k == "Match":
             return _match_to_if(n)
         if k in ("AssignOp", "Assign") and isinstance(n.get("r"), dict) and isinstance(n.get("l"), dict) and _simple(n["l"]):
@@ -296,3 +345,56 @@ def inline_new_helpers(facts, known):
                 break
         n_sites = counter[0]
     return n_sites
+
+
+def int_classes(n):
+    """The partition of an integer scrutinee made by an if-chain `if x <= a {A} else if x <= b {B} else {C}` (as
+    produced from a range match, or written by hand): [(lo, hi, body), ..., (None, None, else-body)], None if n is not
+    such a chain. Conditions understood: x <= K, x < K, K >= x, K > x, x == K, lo <= x && x <= hi."""
+    def lit(e):
+        return int(e["v"]) if e.get("k") == "Lit" and e.get("lk") == "int" else None
+
+    def bound(c):
+        # -> (lo or None, hi) for the condition, and the scrutinee node
+        if c.get("k") == "Binary" and c["op"] == "&&":
+            a, b = bound(c["l"]), bound(c["r"])
+            if a and b and repr(_key(a[2])) == repr(_key(b[2])):
+                los = [x for x in (a[0], b[0]) if x is not None]
+                his = [x for x in (a[1], b[1]) if x is not None]
+                return (max(los) if los else None, min(his) if his else None, a[2])
+            return None
+        if c.get("k") != "Binary":
+            return None
+        op, l, r = c["op"], c["l"], c["r"]
+        if lit(r) is not None and _simple(l):
+            k = lit(r)
+            return {"<=": (None, k, l), "<": (None, k - 1, l), "==": (k, k, l), ">=": (k, None, l), ">": (k + 1, None, l)}.get(op)
+        if lit(l) is not None and _simple(r):
+            k = lit(l)
+            return {">=": (None, k, r), ">": (None, k - 1, r), "==": (k, k, r), "<=": (k, None, r), "<": (k + 1, None, r)}.get(op)
+        return None
+
+    def _key(e):
+        return {k: (v if not isinstance(v, (dict, list)) else _key(v) if isinstance(v, dict) else [_key(x) if isinstance(x, dict) else x for x in v]) for k, v in e.items() if k in ("k", "name", "id", "res", "e", "op")}
+    out = []
+    cur = n
+    prev_hi = -1
+    scrut = None
+    while isinstance(cur, dict) and cur.get("k") == "If" and "el" in cur and cur["c"].get("k") != "Let":
+        b = bound(cur["c"])
+        if b is None or b[1] is None:
+            break
+        if scrut is None:
+            scrut = repr(_key(b[2]))
+        elif repr(_key(b[2])) != scrut:
+            break
+        lo = b[0] if b[0] is not None else prev_hi + 1
+        out.append((lo, b[1], cur["th"]))
+        prev_hi = b[1]
+        cur = cur["el"]
+        while isinstance(cur, dict) and cur.get("k") == "Block" and not cur.get("stmts") and "expr" in cur and cur["expr"].get("k") == "If":
+            cur = cur["expr"]
+    if len(out) < 1:
+        return None
+    out.append((None, None, cur))
+    return out
